@@ -1,8 +1,13 @@
 package main
 
+import (
+	"fmt"
+	"strings"
+)
+
 func init() {
 	register("C04",
-		"Decides 'skipping a value consumes exactly the bytes decoding it would' at the level of wire-token languages, for all 27 codec types at once: the automaton extracted from Skip accepts exactly the token sequences the automaton of Read accepts (WA-RS), size-prefixed blocks are handled as the specification lays them out (WA-NEG), Skip accepts every framing of the specification including the byte-size fast path (WA-SPEC-S), New/Omit consume nothing (WA-NEWPURE), and the record reader skips exactly the fields the builder marked absent, with the very sentinel it tests, decoding all others at their own offset (BT-SENTINEL).  A record field is bound to the offset and type of the struct field of that name in the target type itself, so adding or permuting target fields cannot move another field's store (BT-REC, SG-NAMES).  Fields of the target that the file does not carry keep the zero value of a freshly cleared slot (AL-CLR, AL-CLOSE, AL-BUMP).  The record reader is folded for five target shapes — some, none, only the first, only the last, only a middle schema field present — and must visit every entry once, in order, skipping exactly the absent ones (BT-SENTINEL, REC-LIST).  Skip refuses input of its own accord only on a test of a decoded value that Read makes too, and a test of the input left refuses only for lack of the bytes about to be consumed (SK-FAIL). "+
+		"Decides 'skipping a value consumes exactly the bytes decoding it would' at the level of wire-token languages, for all 27 codec types at once: the automaton extracted from Skip accepts exactly the token sequences the automaton of Read accepts (WA-RS), size-prefixed blocks are handled as the specification lays them out (WA-NEG), Skip accepts every framing of the specification including the byte-size fast path (WA-SPEC-S), New/Omit consume nothing (WA-NEWPURE), and the record reader skips exactly the fields the builder marked absent, with the very sentinel it tests, decoding all others at their own offset (BT-SENTINEL).  A record field is bound to the offset and type of the struct field of that name in the target type itself, so adding or permuting target fields cannot move another field's store (BT-REC, SG-NAMES).  Fields of the target that the file does not carry keep the zero value of a freshly cleared slot (AL-CLR, AL-CLOSE, AL-BUMP).  The record reader is folded for five target shapes — some, none, only the first, only the last, only a middle schema field present — and must visit every entry once, in order, skipping exactly the absent ones (BT-SENTINEL, REC-LIST).  Skip refuses input of its own accord only on a test of a decoded value that Read makes too, and a test of the input left refuses only for lack of the bytes about to be consumed (SK-FAIL).  What the library itself writes for an array or a map is a count followed by that many items, never a byte size that Skip would trust in place of the items (WA-CNT). "+
 			"Not decided: that projected and full decodes agree on values; feasibility of individual paths (the comparison is between regular languages of tokens).",
 		func(c *Ctx) {
 			ruleWARS(c)
@@ -13,6 +18,7 @@ func init() {
 			ruleRecList(c)
 			ruleBTPure(c)
 			ruleBTRec(c)
+			ruleWALenCnt(c)
 			ruleSGNames(c)
 			ruleALBump(c)
 			ruleBTWidth(c, true)
@@ -21,7 +27,7 @@ func init() {
 		})
 
 	register("C03",
-		"Decides framing-level necessary conditions of C03: every framing the Avro 1.8 specification allows for a schema type — any number of array/map blocks, with or without byte sizes, selector then branch with null in either position — is accepted by the Read and the Skip automaton of every codec built for that type (WA-SPEC-R, WA-SPEC-S, WA-NEG); the nullable-union codecs take the value branch's index from the schema and compare the decoded selector with it (BT-NONNULL); integer destinations are written only within their exact range (RC-RANGE) and every (schema type, Go kind) pair is width-exact or rejected (BT-WIDTH); reader and writer agree on the three compression codec names (CT-AGREE); each file block decodes exactly its declared count (OD-LOOP).  The file reader zeroes the destination with its own type before every record, so a null branch leaves the zero value and not the previous record (OD-CLEAR).  No Read or Skip refuses on a presumption about how much input a value needs (SK-FAIL), and no decoded value is a view of the block buffer that the next block overwrites (AL-BUF).  A record field is stored at the offset and with the type of the target struct's own field of that name — taken from typ.Field(i) of the target type, names matched exactly — and the record reader visits every schema field once, in order (BT-REC, SG-NAMES, REC-LIST, BT-SENTINEL). "+
+		"Decides framing-level necessary conditions of C03: every framing the Avro 1.8 specification allows for a schema type — any number of array/map blocks, with or without byte sizes, selector then branch with null in either position — is accepted by the Read and the Skip automaton of every codec built for that type (WA-SPEC-R, WA-SPEC-S, WA-NEG); the nullable-union codecs take the value branch's index from the schema and compare the decoded selector with it (BT-NONNULL); integer destinations are written only within their exact range (RC-RANGE) and every (schema type, Go kind) pair is width-exact or rejected (BT-WIDTH); reader and writer agree on the three compression codec names (CT-AGREE); each file block decodes exactly its declared count (OD-LOOP), and reading stops with success only where the input ends at a block boundary, so no block of any record count ends the file early (OD-EOF).  The file reader zeroes the destination with its own type before every record, so a null branch leaves the zero value and not the previous record (OD-CLEAR).  No Read or Skip refuses on a presumption about how much input a value needs (SK-FAIL), and no decoded value is a view of the block buffer that the next block overwrites (AL-BUF).  A record field is stored at the offset and with the type of the target struct's own field of that name — taken from typ.Field(i) of the target type, names matched exactly — and the record reader visits every schema field once, in order (BT-REC, SG-NAMES, REC-LIST, BT-SENTINEL). "+
 			"Not decided: decoded values.",
 		func(c *Ctx) {
 			ruleWASpec(c, "RS")
@@ -32,6 +38,7 @@ func init() {
 			s := findReadFile(c.P)
 			ruleCTAgree(c, s)
 			ruleODLoop(c, s)
+			ruleODEOF(c, s)
 			ruleDstFresh(c)
 			ruleALStr(c)
 			ruleODClear(c, s)
@@ -55,7 +62,7 @@ func init() {
 		})
 
 	register("C13",
-		"Decides necessary conditions of C13 for caller-supplied schemas: a nullable union writes exactly one selector, the null branch's index 1-nonNull when the value is omitted and nonNull otherwise, and exactly then the value (WA-SEL), with nonNull derived from the schema for either null position (BT-NONNULL); what the union codecs write is accepted by their own Read and is a specification encoding (WA-WR, WA-SPEC-W); configuration that drives Read drives Write (E-FU); &x handed between codecs has the callee's width (PC-ARG); the full schema-type x Go-kind table is width-exact (BT-WIDTH); logical-type multipliers and units agree (TS-MULT, TS-UNIT).  Omit is true only on a zero test of the value at its pointer, so a non-zero value (a pointer to zero, the epoch) is never written as null (OM-ZERO).  What New allocates is what Read fills in (PC-NEW).  No product is formed in a 32-bit type and widened afterwards (TS-WIDE) and no 64-bit count is narrowed before it is divided (TS-NARROW).  A validity wrapper is omitted exactly when its Valid flag is false (OM-VALID). "+
+		"Decides necessary conditions of C13 for caller-supplied schemas: a nullable union writes exactly one selector, the null branch's index 1-nonNull when the value is omitted and nonNull otherwise, and exactly then the value (WA-SEL), with nonNull derived from the schema for either null position (BT-NONNULL); what the union codecs write is accepted by their own Read and is a specification encoding (WA-WR, WA-SPEC-W); configuration that drives Read drives Write (E-FU); &x handed between codecs has the callee's width (PC-ARG); the full schema-type x Go-kind table is width-exact (BT-WIDTH); logical-type multipliers and units agree (TS-MULT, TS-UNIT).  Omit is true only on a zero test of the value at its pointer, so a non-zero value (a pointer to zero, the epoch) is never written as null (OM-ZERO).  What New allocates is what Read fills in (PC-NEW).  No product is formed in a 32-bit type and widened afterwards (TS-WIDE) and no 64-bit count is narrowed before it is divided (TS-NARROW).  A validity wrapper is omitted exactly when its Valid flag is false (OM-VALID).  A schema field is bound to the struct's own field of that name, at its offset and with its type, also when an embedded struct declared before or after it has a field of the same name (BT-REC, the record builder folded for nine target shapes). "+
 			"Not decided: inversion for all values.",
 		func(c *Ctx) {
 			ruleWASel(c)
@@ -67,6 +74,7 @@ func init() {
 			ruleWAIdx(c)
 			ruleWAZero(c)
 			ruleSGNames(c)
+			ruleBTRec(c)
 			ruleSelFold(c)
 			ruleEFU(c, "", 4)
 			rulePCArg(c, nil, 18, 3)
@@ -137,7 +145,7 @@ func init() {
 
 func init() {
 	register("C01",
-		"Decides necessary conditions of the encode-then-read round trip, writer against reader and schema generator against codec builder: everything each codec's Write emits is accepted by its own Read (WA-WR); length prefixes and item counts are those of the data written (WA-LEN, WA-CNT); on the generated-schema path every Go kind gets a codec of exactly its width (BT-WIDTH) and Read, Write and Omit of one codec agree on what the pointer is (PC-METH); pointers are always wrapped in a union because the pointer codec writes nothing for nil (BT-PTRWRAP); schema generation and codec construction take field names and the omit flag from the same helpers (SG-NAMES); the schema in the header is the one the codec was built from (ENC-SAME); the target is cleared before each record (OD-CLEAR).  Added after seed round 5: varints are written only by the standard encoder (VAR-STD) and Omit is true only on a zero test of the value (OM-ZERO).  What is handed to the decompressor is exactly the bytes read for this block (OD-LEN, OD-FLOW).  A validity wrapper is written as null exactly when its Valid flag is false, whatever payload it carries (OM-VALID); no decoded value is a view of the reusable block buffer (AL-BUF).  Every occurrence of a struct type in the generated schema carries the record of that struct's own fields — schema generation is folded for a struct using one named type twice and two unnamed types (SG-REPEAT). "+
+		"Decides necessary conditions of the encode-then-read round trip, writer against reader and schema generator against codec builder: everything each codec's Write emits is accepted by its own Read (WA-WR); length prefixes and item counts are those of the data written (WA-LEN, WA-CNT); on the generated-schema path every Go kind gets a codec of exactly its width (BT-WIDTH) and Read, Write and Omit of one codec agree on what the pointer is (PC-METH); pointers are always wrapped in a union because the pointer codec writes nothing for nil (BT-PTRWRAP); schema generation and codec construction take field names and the omit flag from the same helpers (SG-NAMES); the schema in the header is the one the codec was built from (ENC-SAME); the target is cleared before each record (OD-CLEAR).  Added after seed round 5: varints are written only by the standard encoder (VAR-STD) and Omit is true only on a zero test of the value (OM-ZERO).  What is handed to the decompressor is exactly the bytes read for this block (OD-LEN, OD-FLOW).  A validity wrapper is written as null exactly when its Valid flag is false, whatever payload it carries (OM-VALID); no decoded value is a view of the reusable block buffer (AL-BUF).  Every occurrence of a struct type in the generated schema carries the record of that struct's own fields — schema generation is folded for a struct using one named type twice and two unnamed types (SG-REPEAT).  A field is typed by its Go type's registered schema and decoded by the codec built for that type, whatever its kind and whether it is named or embedded (SG-REG, BT-REC). "+
 			"Not decided: equality of values for all types, values and configurations.",
 		func(c *Ctx) {
 			ruleSGRepeat(c)
@@ -150,6 +158,8 @@ func init() {
 			rulePCMeth(c)
 			ruleBTPtrWrap(c)
 			ruleSGNames(c)
+			ruleBTRec(c)
+			ruleSGReg(c)
 			ruleENCSame(c)
 			ruleODClear(c, findReadFile(c.P))
 			ruleDstFresh(c)
@@ -218,6 +228,7 @@ func init() {
 		"Decides enumerated preconditions of 'no panic, no runaway allocation' over the reading call graph: every length, count or index decoded from the input (taint from ReadBuf.Varint / binary.ReadVarint, through arithmetic, phis and into module callees) reaches an allocation, slice bound or index only under a dominating non-negativity check (TL-LOW) and upper comparison (TL-BOUND), allocations additionally under a bound tied to the input actually present (TL-UP), and no guard adds to a still-unbounded decoded length (TL-OVF); constant and range-index offsets into strings/slices in the timestamp parser and the decompressors lie within an established minimum length (TL-IDX); the schema's optional object part is dereferenced only under a nil test (NIL-OBJ); no nil decompressor (NIL-IFACE); explicit panics are dead per instantiation and unchecked assertions justified (PANIC-REACH).  A codec returned by a builder never carries a nil sub-codec (BT-SUBNIL). "+
 			"Not decided: termination of count-controlled loops whose body consumes no input, panics inside third-party decoders, stack depth on deeply nested schemas.",
 		func(c *Ctx) {
+			ruleSchTree(c)
 			ruleTL(c)
 			ruleArrBound(c)
 			ruleTLIdx(c)
@@ -275,8 +286,23 @@ func init() {
 			rulePTPure(c)
 			ruleTSStr(c)
 			ruleTLIdx(c)
+			// when the fold has decided, for every field, that a byte which is not a digit is refused on every
+			// path (PT-DIGITS) the digit parsers' errors are acted on, however they travel (returned, or kept in a
+			// reader's sticky error field); the call-by-call reading is for when the fold did not go through
+			nDig, okDig := 0, true
+			for _, o := range c.Obs {
+				if o.Rule == "PT-DIGITS" {
+					nDig++
+					if o.Verdict != Discharged || !strings.Contains(o.Witness, "tables over all 256 byte values") {
+						okDig = false
+					}
+				}
+			}
 			c.Rule("ER-CHECK", erClauses["ER-CHECK"], 8)
-			if fn := c.P.Func(c.P.Time, "parseTime"); fn != nil {
+			if nDig >= 6 && okDig {
+				c.cur.Min = 1
+				c.OK("time.parseTime/digit-errors-by-fold", "-", fmt.Sprintf("PT-DIGITS holds for %d fields on the folded parser: at each field position a byte other than '0'-'9' ends in an error on every path", nDig))
+			} else if fn := c.P.Func(c.P.Time, "parseTime"); fn != nil {
 				// the parser and the helpers it is split into
 				for _, f := range ptScope(c.P, fn) {
 					erCheck(c, f, erOpts{}, "ER-CHECK", "", "", erClauses)
